@@ -4,6 +4,7 @@ CONSTANTS
   BatchSize = 4
   ValidateFirst = TRUE
   RootCheck = TRUE
+  ResetClearsBitmap = TRUE
   MaxAdds = 12
   MaxBad = 4
   MaxDup = 3
